@@ -225,12 +225,56 @@ def run(ctx):
     tr2 = ctx.drive(drive, ["--cases", c2, "--n", "0"], "trace-gen-mds.ndjson")
     monitor(ctx, "mon-gen-mds", tr2, timeout=2400)
 
+    # 3b. very long discarded parts: round_fract decides "more / less than half" from float estimates of log2 before the
+    # exact comparison; the estimates are only as good as f32, so the shortcut must stay sound when the part has thousands
+    # of bits: products whose discarded half is one unit below / above half an ulp
+    def wire(v):
+        m = abs(v)
+        return {"s": 1 if v < 0 else 0, "m": list(m.to_bytes((m.bit_length() + 7) // 8, "little"))}
+    huge = []
+    # (the monitor multiplies the operands exactly: ~25 s per case at this size, so the quick tier takes the two cases
+    # that separate the two shortcut branches, the thorough tier every base / mode / side)
+    plan = ctx.pick([(2, 6400, ("HalfEven", None, None, "HalfAway"))],
+                    [(2, 9000, ("HalfEven", "HalfAway", "HalfEven", "HalfAway", "Up", "Zero")),
+                     (10, 2800, ("HalfEven", "HalfAway", "HalfEven", "HalfAway", "Up", "Zero")),
+                     (16, 1700, ("HalfEven", "HalfAway", "HalfEven", "HalfAway"))])
+    for base, p, modes in plan:
+        half = base ** p // 2
+        for k, mode in enumerate(modes):
+            if mode is None:
+                continue
+            b = half + 1 if k % 4 < 2 else half - 1          # (B^p - 1) * (B^p / 2 +- 1): discarded part = half -+ 1
+            sign = -1 if k == 3 else 1
+            huge.append({"op": "mul", "base": base, "mode": mode, "prec": p, "pa": p, "pb": p, "kind": "huge-fract",
+                         "a": {"sig": wire(sign * (base ** p - 1)), "exp": 0}, "b": {"sig": wire(b), "exp": -p}})
+    # one monitor per case, in threads next to the random pass (each is a single-threaded TLC run)
+    import threading
+    huge_threads, huge_err = [], []
+    def huge_job(i, case):
+        try:
+            chi, _ = write_cases(ctx, "huge-%d" % i, [case])
+            tri = ctx.drive(drive, ["--cases", chi, "--n", "0"], "trace-gen-huge-%d.ndjson" % i)
+            monitor(ctx, "mon-gen-huge-%d" % i, tri, timeout=2400)
+        except BaseException as ex:      # re-raised in the main thread
+            huge_err.append(ex)
+    for i, case in enumerate(huge):
+        t = threading.Thread(target=huge_job, args=(i, case))
+        t.start()
+        huge_threads.append(t)
+        if len(huge_threads) % 6 == 0:
+            for t in huge_threads:
+                t.join()
+
     # 4. impl -> spec: seeded random operands, large precisions, huge gaps
     n = ctx.pick(2500, 20000)
     tr3 = ctx.drive(drive, ["--seed", str(ctx.seed), "--n", str(n), "--max-prec", "60",
                             "--max-gap", str(ctx.pick(400, 800))], "trace-rnd.ndjson")
     monitor(ctx, "mon-rnd", tr3, timeout=3000)
 
+    for t in huge_threads:
+        t.join()
+    if huge_err:
+        raise huge_err[0]
     for ev, _, _ in ctx.violations:
         enrich(ev)
     req = ["op:" + o for o in ("add", "sub", "mul", "div", "sqrt", "sqr", "cubic", "inv")]
